@@ -327,9 +327,18 @@ class Gen:
             else:
                 rhs = "(if (!p::'zz. !q. p = q) then %s else %s)" % (rhs, self.expr(R, env, 1))
         if 'extra' in attack:
-            ev = r.choice(['w9', 'v', 'q', 'free'])
+            # an ordinary stray variable, or a SCHEMATIC one: c = ?x makes c equal to everything just the same
+            ev = r.choice(['w9', 'v', 'q', 'free', '?w9', '?sx'])
             how = r.choice(['eq', 'bool', 'same'])
-            if how == 'same' and R[0] != 'tv' and not is_fun(R):
+            if ev.startswith('?'):
+                # schematic variables are written without annotation (their type follows from the position)
+                if R == BOOL:
+                    rhs = '(%s | %s)' % (rhs, ev)
+                elif how == 'same' or R == NAT:
+                    rhs = '(if %s then %s else %s)' % (self.expr(BOOL, env, 0), rhs, ev)
+                else:
+                    rhs = '(if (%s = (0::nat)) then %s else %s)' % (ev, rhs, rhs)
+            elif how == 'same' and R[0] != 'tv' and not is_fun(R):
                 rhs = '(if %s then %s else (%s::%s))' % (self.expr(BOOL, env, 0), rhs, ev, ty_text(R, self.uni))
             elif how == 'bool' or R == BOOL:
                 rhs = '(%s | (%s::bool))' % (rhs, ev) if R == BOOL else '(if (%s::bool) then %s else %s)' % (ev, rhs, rhs)
@@ -549,7 +558,7 @@ class Gen:
             if 'tvar' in attack and self.tvar_subterm(R):
                 rhs = '(%s %s %s)' % (rhs, '&' if R == BOOL else '+', self.tvar_subterm(R))
             if 'extra' in attack and R in (NAT, BOOL):
-                rhs = '(%s %s %s)' % (rhs, '&' if R == BOOL else '+', 'stray_v')
+                rhs = '(%s %s %s)' % (rhs, '&' if R == BOOL else '+', r.choice(['stray_v', 'stray_v', '?stray_s']))
             lhs = ' '.join([name, pat] + enames)
             if 'nonconstr' in attack and D == NAT and pat != '0':
                 lhs = ' '.join([name, '(n + 2)'] + enames)
@@ -606,6 +615,22 @@ class Gen:
                 rname = r.choice(['conjI', 'add_comm'])
             rules.append({'name': rname, 'prop': prop})
         return {'ty': 'def.pred', 'name': name, 'type': ty_text(T, self.uni), 'rules': rules, '_attack': sorted(attack), '_family': 'def.pred'}
+
+    def gen_pred_on_overloaded(self, stray=True):
+        """an inductive predicate declared on an OVERLOADED library constant at a fresh instance (the prefix order on
+        lists as less_eq), optionally with one rule whose conclusion uses the constant at another instance (nat):
+        the head of every conclusion must be the constant AT THE DECLARED TYPE"""
+        r = self.rng
+        self.uni = False
+        cname = r.choice(['less_eq', 'less'])
+        rules = [{'name': 'vfpre_nil', 'prop': "%s ([]::'a list) ys" % cname},
+                 {'name': 'vfpre_cons', 'prop': "%s xs ys --> %s ((x::'a) # xs) (x # ys)" % (cname, cname)}]
+        if stray:
+            bad = r.choice(["%s (Suc (0::nat)) 0" % cname, "%s (n::nat) (n + 1) --> %s (Suc n) (0::nat)" % (cname, cname),
+                            "%s xs ys --> %s (length (xs::'a list)) (0::nat)" % (cname, cname)])
+            rules.insert(r.randrange(len(rules) + 1), {'name': 'vfpre_stray', 'prop': bad})
+        return {'ty': 'def.pred', 'name': cname, 'type': "'a list => 'a list => bool", 'rules': rules,
+                '_attack': ['overload-head'] if stray else [], '_family': 'def.pred'}
 
     def gen_header(self):
         return {'ty': 'header', 'depth': self.rng.choice([0, 1, 2]), 'name': self.rng.choice(['Section', 'Basic facts', 'x :: y', 'Über ∀'])}
@@ -840,6 +865,10 @@ class Gen:
                 patt = (r.choice(['partial', 'head', 'norules', 'duprule', 'existing']),)
             ds.append(self.gen_pred(info, attack=patt))
             return 'type.ind+def.pred' + (':attack' if patt else ''), ds
+        if r.random() < 0.35:
+            stray = r.random() < 0.7
+            ds.append(self.gen_pred_on_overloaded(stray))
+            return 'type.ind+def.pred-on-overloaded' + (':attack' if stray else ''), ds
         ds.append(self.gen_fun(None, attack=()))
         ds.append(self.gen_pred(None, attack=()))
         return 'type.ind+def.ind+def.pred', ds
